@@ -24,6 +24,7 @@ CONSTANTS Mode,        \* "energy" | "reverse" | "linear" | "complex"
           Family,      \* which boundary configurations: "sweep" | "mixed" | "full" | "list"
           List,        \* Family = "list": set of codes 1000000 shape + 10000 kx + 100 ky + kz (shape 1..3 = long axis)
           Steps,       \* forward steps per behaviour (energy / linear / complex), run length T (reverse)
+          PairMod,     \* energy mode: first unit index i restricted to multiples of PairMod (1 = all pairs)
           Extra        \* set of codes 1000 mat + 100 loss + 10 wpat + srcset combined with the boundary configurations
 
 VARIABLES g,           \* compiled configuration (constant along a behaviour)
@@ -109,7 +110,7 @@ Init ==
        CASE Mode = "energy" ->
               \* e_i + u e_j for i <= j (u = 1, and u = i where a Bloch phase makes the form Hermitian)
               /\ \E i \in 1..(2 * n) : \E j \in i..(2 * n) : \E u \in { << 1, 0 >>, << 0, 1 >> } :
-                    /\ Admissible(g, i) /\ Admissible(g, j)
+                    /\ i % PairMod = 0 /\ Admissible(g, i) /\ Admissible(g, j)
                     /\ (u = << 0, 1 >> => (i < j /\ HasComplexPhase(g)))
                     /\ r = << Run(FAdd(UnitE(n, i, << 1, 0 >>), IF j = i THEN Zero(n) ELSE UnitE(n, j, u)),
                                   FAdd(UnitH(n, i, << 1, 0 >>), IF j = i THEN Zero(n) ELSE UnitH(n, j, u)), NoAmp) >>
